@@ -49,9 +49,22 @@ Fixpoint zip_rel (g : gtfcfg) (feats : list row) (rows : list row) : list rel :=
   | _, _ => []
   end.
 
-Definition spec_ok (g : gtfcfg) (feats : list row) (t : tables) : bool :=
+(* F21: a gene all of whose subfeatures lack a transcript id is reached through no (transcript, gene) pair *)
+Definition has_pair (g : gtfcfg) (feats : list row) (gn : str) : bool :=
+  existsb (fun f => is_sub g f && match first_val (g_tkey g) f, first_val (g_gkey g) f with
+                                  | Some _, Some x => str_eqb x gn | _, _ => false end) feats.
+Definition orphan_gene (g : gtfcfg) (feats : list row) (gn : str) : bool :=
+  match expected_extent g (g_gkey g) gn feats with Some _ => true | None => false end
+  && negb (has_pair g feats gn) && negb (has_explicit g feats gn) && negb (g_no_genes g).
+Definition f21_class (g : gtfcfg) (feats : list row) : bool :=
+  existsb (orphan_gene g feats) (keys_of (g_gkey g) (filter (is_sub g) feats)).
+
+Definition spec_ok (lenient : bool) (g : gtfcfg) (feats : list row) (t : tables) : bool :=
   forallb (derived_ok g feats t (g_tkey g) TRANSCRIPT (g_no_transcripts g)) (keys_of (g_tkey g) (filter (is_sub g) feats))
-  && forallb (derived_ok g feats t (g_gkey g) GENE (g_no_genes g)) (keys_of (g_gkey g) (filter (is_sub g) feats))
+  && forallb (fun gn => if lenient && orphan_gene g feats gn
+                        then Nat.eqb (length (filter (fun r => str_eqb (r_id r) gn) (t_rows t))) 0
+                        else derived_ok g feats t (g_gkey g) GENE (g_no_genes g) gn)
+             (keys_of (g_gkey g) (filter (is_sub g) feats))
   && rels_seteq (zip_rel g feats (t_rows t)) (t_rels t)
   (* never its own parent or child *)
   && forallb (fun x => negb (str_eqb (rel_parent x) (rel_child x))) (t_rels t).
@@ -61,7 +74,11 @@ Definition verdict (c : case) : Z :=
   | Case g strat feats impl =>
     if in_domain g feats then
       match import_gtf call_table g strat [] (gtf_spec g) feats empty_st, impl with
-      | Ok st, Ok t => if st_matches_set st t && spec_ok g feats t then V_OK else V_BAD
+      | Ok st, Ok t =>
+          if st_matches_set st t then
+            if spec_ok false g feats t then (if f21_class g feats then V_FIXED else V_OK)
+            else if f21_class g feats && spec_ok true g feats t then V_KNOWN 21 else V_BAD
+          else V_BAD
       | Err EOther, _ => V_OUT
       | Err e, Err e' => if err_eqb e e' then V_OK else V_BAD
       | _, _ => V_BAD
